@@ -181,6 +181,8 @@ def like_spec(subst, site, tree, n=3, cat=4, tip="partials", long_branches=False
         params += [("kappa", ((1,), g_pos(0.5, 5.0))), ("freqs", ((4,), g_simplex()))]
     elif subst == "GTR":
         params += [("rates", ((6,), g_pos(0.2, 4.0))), ("freqs", ((4,), g_simplex()))]
+    elif subst in ("GS", "GN"):
+        params += [("rates", ((6 if subst == "GS" else 12,), g_pos(0.2, 4.0))), ("freqs", ((4,), g_simplex()))]
     if "weibull" in site:
         params += [("shape", ((1,), g_pos(0.3, 3.0)))]
     if "inv" in site:
@@ -198,6 +200,13 @@ def like_spec(subst, site, tree, n=3, cat=4, tip="partials", long_branches=False
             sj = {"id": "m", "type": "JC69"}
         elif subst == "HKY":
             sj = {"id": "m", "type": "HKY", "kappa": P("kappa", v["kappa"]), "frequencies": P("freqs", v["freqs"])}
+        elif subst in ("GS", "GN"):
+            sj = {"id": "m", "type": "GeneralSymmetricSubstitutionModel" if subst == "GS" else
+                  "GeneralNonSymmetricSubstitutionModel",
+                  "data_type": {"id": "gdt", "type": "GeneralDataType", "codes": ["A", "C", "G", "T"]},
+                  "rates": P("rates", v["rates"]), "frequencies": P("freqs", v["freqs"])}
+            if subst == "GN":
+                sj["normalize"] = True
         else:
             sj = {"id": "m", "type": "GTR", "rates": P("rates", v["rates"]), "frequencies": P("freqs", v["freqs"])}
         if "weibull" in site:
@@ -210,7 +219,7 @@ def like_spec(subst, site, tree, n=3, cat=4, tip="partials", long_branches=False
             mj["invariant"] = P("pinv", v["pinv"])
         if "mu" in site:
             mj["mu"] = P("mu", v["mu"])
-        aln = {"id": "aln", "type": "Alignment", "datatype": "nucleotide", "taxa": "taxa",
+        aln = {"id": "aln", "type": "Alignment", "datatype": "gdt" if subst in ("GS", "GN") else "nucleotide", "taxa": "taxa",
                "sequences": [{"taxon": f"t{j}", "sequence": seqs[j]} for j in range(n)]}
         d = {"id": "like", "type": "TreeLikelihoodModel", "tree_model": tj, "site_model": mj,
              "substitution_model": sj, "site_pattern": {"id": "sp", "type": "SitePattern", "alignment": aln}}
@@ -557,6 +566,11 @@ def catalogue(tier):
     S.append(like_spec("HKY", "weibull", "unrooted", 3, 3))
     S.append(like_spec("GTR", "weibull", "strict", 3, 2, "states"))
     S.append(like_spec("JC69", "weibull+inv", "unrooted", 3, 4, "states"))
+    # the general models over a user-defined alphabet (the non-symmetric one goes through matrix_exp)
+    S.append(like_spec("GN", "constant", "unrooted", 3, 1))
+    S.append(like_spec("GS", "weibull", "strict", 3, 2))
+    if thorough:
+        S.append(like_spec("GN", "weibull+inv", "simple", 4, 3))
     S.append(like_spec("JC69", "constant", "unrooted", 600, 1, long_branches=True))
     S.append(like_spec("HKY", "invariant", "unrooted", 600, 1, "states", long_branches=True))
     if thorough:
@@ -1075,6 +1089,10 @@ def make_jobs(tier, seed):
                 sel = [rng.choice([x for x in s1 if x[0] >= 2]), rng.choice(s1), rng.choice(s2),
                        rng.choice([x for x in s2 if x[0] == x[1]] if rng.random() < 0.3 else s2)]
                 sel = list(dict.fromkeys(sel))
+            if sp.group == "treelikelihood" and "/n3" in sp.key and tier != "thorough":
+                # sample counts that COINCIDE with a size of the model (3 taxa: 3 branch lengths, 4 branch slots,
+                # 4 states): a misaligned axis then broadcasts silently instead of raising
+                sel = list(dict.fromkeys(sel + [(4,), (3,)]))
             for ss in sel:
                 jobs.append((tier, sp.key, tuple(sub), tuple(ss), rng.randrange(1 << 30)))
         # layouts in which one parameter carries the INNER sample dimension only ([K] + base under [S, K]), the
